@@ -381,14 +381,19 @@ impl<T> Timer<T> {
         self.poll_to(target_tick)
     }
 
-    fn poll_to(&mut self, mut target_tick: Tick) -> Option<T> {
+    fn poll_to(&mut self, target_tick: Tick) -> Option<T> {
         trace!(
             "tick_to; target_tick={}; current_tick={}",
             target_tick, self.tick
         );
 
+        // The wheel is already ahead of the clock (a poll that finds nothing
+        // leaves `self.tick` at `target_tick + 1`): nothing can be due yet.
+        // Walking on from here would advance the wheel one tick per call
+        // whatever the clock says; every timeout set afterwards would then be
+        // pushed behind the run-away tick and fire late.
         if target_tick < self.tick {
-            target_tick = self.tick;
+            return None;
         }
 
         while self.tick <= target_tick {
@@ -675,6 +680,30 @@ mod test {
         tick = ms_to_tick(&t, 200);
         assert_eq!(Some("c"), t.poll_to(tick));
         assert_eq!(0, count(&t));
+    }
+
+    #[test]
+    pub fn test_polling_again_does_not_advance_the_wheel() {
+        let mut t = timer();
+
+        t.set_timeout_at(Duration::from_millis(300), "a");
+
+        // the clock stands still at tick 1: however often the timer is
+        // polled, the wheel stays one tick ahead at most
+        let tick = ms_to_tick(&t, 100);
+        for _ in 0..10 {
+            assert_eq!(None, t.poll_to(tick));
+        }
+        assert_eq!(t.tick, tick + 1);
+
+        // a timeout set now is not pushed behind a run-away wheel
+        let b = t.set_timeout_at(Duration::from_millis(300), "b");
+        assert_eq!(b.tick, 3);
+
+        assert_eq!(None, t.poll_to(ms_to_tick(&t, 200)));
+        assert_eq!(Some("b"), t.poll_to(ms_to_tick(&t, 300)));
+        assert_eq!(Some("a"), t.poll_to(ms_to_tick(&t, 300)));
+        assert_eq!(None, t.poll_to(ms_to_tick(&t, 300)));
     }
 
     const TICK: u64 = 100;
